@@ -1,6 +1,7 @@
-(* C08 — the slash callback is total.  FALSE of the unchanged code (four
-   refutations, histories executed on the real implementation); what holds:
-   rescheduling on success, validators without alliance stake. *)
+(* C08 — the slash callback is total.  FALSE of the code (refutation: the reward
+   claim inside the redelegation loop can find the pool short, F-C12-1); three
+   other failure modes were repaired.  What holds: rescheduling on success,
+   validators without alliance stake. *)
 From Coq Require Import ZArith List Bool.
 From Alliance Require Import Num KMap Types Monad Model Step Spec Hoare WitnessLib.
 From Alliance.Witness Require Import F_C08_missing_destination F_C08_shrunken_destination F_C08_zero_value F_C08_pool_short.
@@ -8,19 +9,21 @@ From Alliance.Proofs Require Import Flag Misc.
 Import ListNotations.
 Open Scope Z_scope.
 
-(* F-C08-1: destination position of a pending redelegation fully undelegated:
-   "delegator does not contain delegation" (error, code 4); partial state kept *)
-Example C08_refuted_missing_destination : witness_fails 8 1 ops_F_C08_missing_destination = true.
+(* F-C08-1, F-C08-2, F-C08-3 (FIXED in /repo by "fix: cap the slash of a redelegation at what
+   the destination delegation holds"): the callback returned "delegator does not contain
+   delegation" when the destination position had been fully undelegated, "insufficient
+   delegation shares" when it held less than the slash, and panicked "division by zero" when
+   the destination validator's token value was zero.  The three witness histories (executed on
+   the real implementation before the fix) now complete. *)
+Example C08_fixed_missing_destination : witness_fails 8 1 ops_F_C08_missing_destination = false.
 Proof. vm_compute. reflexivity. Qed.
-Print Assumptions C08_refuted_missing_destination.
-(* F-C08-2: destination smaller than the slash: "insufficient delegation shares" (code 5) *)
-Example C08_refuted_shrunken_destination : witness_fails 8 1 ops_F_C08_shrunken_destination = true.
+Print Assumptions C08_fixed_missing_destination.
+Example C08_fixed_shrunken_destination : witness_fails 8 1 ops_F_C08_shrunken_destination = false.
 Proof. vm_compute. reflexivity. Qed.
-Print Assumptions C08_refuted_shrunken_destination.
-(* F-C08-3: destination validator's token value is zero: division by zero (panic) *)
-Example C08_refuted_zero_value : witness_fails 8 1 ops_F_C08_zero_value = true.
+Print Assumptions C08_fixed_shrunken_destination.
+Example C08_fixed_zero_value : witness_fails 8 1 ops_F_C08_zero_value = false.
 Proof. vm_compute. reflexivity. Qed.
-Print Assumptions C08_refuted_zero_value.
+Print Assumptions C08_fixed_zero_value.
 (* F-C12-1 seen through C08: the claim inside the loop finds the pool short *)
 Example C08_refuted_pool_short : witness_fails 8 1 ops_F_C08_pool_short = true.
 Proof. vm_compute. reflexivity. Qed.
